@@ -29,6 +29,18 @@ def r1(run):
                reason="unaudited-remover")
     reqs = [r for r in gc_requests(run) if r[2] == "Remove"]
     run.floor("GCTask::Remove construction sites", len(reqs), 2)
+    # fail closed: every task put on the GC queue must be readable as a constructed GCTask (not, say, `ids.map(GCTask::Remove)`)
+    from .store_shared import GCTASK
+    seen_sends = {(id(r[0]), r[1].bb) for r in gc_requests(run)}
+    for b0 in run.facts.all_bodies():
+        for c0 in q.live_calls(b0, C.UNBOUNDED_SEND):
+            if GCTASK in c0.fnx and (id(b0), c0.bb) not in seen_sends:
+                run.ob("%s|gc-request-readable" % run.facts.enclosing_fn(b0), False, c0.sp,
+                       "a GC task is queued whose construction the rules cannot read: %s" % fmt(strip(c0.arg(1)))[:120], reason="unrecognised-idiom")
+        for c0 in b0.calls():
+            if c0.bb in b0.live_blocks() and any("const" in a and "GCTask::" in str(a["const"].get("s", "")) for a in c0.args):
+                run.ob("%s|gc-request-readable" % run.facts.enclosing_fn(b0), False, c0.sp,
+                       "a GCTask variant constructor is used as a function value (%s): what it wraps is not checked" % c0.fn.split("::")[-1], reason="unrecognised-idiom")
     for (b, c, variant, agg) in reqs:
         fn = b.def_
         payload = agg[2][0]
